@@ -27,3 +27,40 @@ JOBS += [
      "unwind": 66, "mem_gb": 4, "timeout": 600, "no_native": True,
      "assumptions": ["A-det: SHA-1 is a function of its input (digests are arbitrary but recorded); the SHA-1 primitive itself is not under contract"]},
 ]
+
+def _w(unit, functions, props, replace):
+    return {"name": "sha256_" + unit, "props": props, "functions": functions,
+            "harness": "harness/sha256_wrappers.c", "defs": ["%s=1" % unit, "XV_BZERO_EVENTS=1"],
+            "verif_src": ["models/strings.c"], "replace_calls": replace,
+            "unwind": 66, "mem_gb": 4, "timeout": 300, "no_native": True,
+            "assumptions": ["A-det: SHA-256 is a function of its input; its compression function and buffering are not under contract here"]}
+
+U = "_SHA256_Update:upd_stub"; F = "_SHA256_Final:fin_stub"
+HI = "_HMAC_SHA256_Init:hinit_stub"; HU = "_HMAC_SHA256_Update:hupd_stub"; HF = "_HMAC_SHA256_Final:hfin_stub"
+JOBS += [
+    _w("W_update", ["SHA256_Update"], ["C09", "C16"], [U]),
+    _w("W_final", ["SHA256_Final"], ["C09", "C16"], [F]),
+    _w("W_buf", ["SHA256_Buf"], ["C09", "C16"], [U, F]),
+    _w("W_hmac_init", ["HMAC_SHA256_Init"], ["C09", "C16"], [HI]),
+    _w("W_hmac_final", ["HMAC_SHA256_Final"], ["C09", "C16"], [HF]),
+    _w("W_hmac_buf", ["HMAC_SHA256_Buf"], ["C09", "C16"], [HI, HU, HF]),
+    _w("H_init", ["_HMAC_SHA256_Init"], ["C16", "C02"], [U, F]),
+]
+
+JOBS.append(_w("W_hmac_update", ["HMAC_SHA256_Update"], ["C09", "C16"], [HU]))
+
+PB_LOOPS = [
+    {"function": "_crypt_PBKDF2_SHA256", "anchor": "for (i = 0; i * 32 < dkLen; i++) {", "nth": 0, "assigns": "i, hctx, u, __CPROVER_object_whole(tmp32), __CPROVER_object_whole(buf)", 
+     "invariant": "(i == 0 || (i - 1) * 32 < dkLen) && xv_bzero_n == 0 && p_inits >= 1", "decreases": "(dkLen >> 5) + 1 - i"},
+    {"function": "_crypt_PBKDF2_SHA256", "anchor": "for (i = 0; i * 32 < dkLen; i++) {", "nth": 1, "assigns": "i, j, hctx, __CPROVER_object_whole(ivec), __CPROVER_object_whole(T), __CPROVER_object_whole(U), __CPROVER_object_whole(buf)", 
+     "invariant": "(i == 0 || (i - 1) * 32 < dkLen) && xv_bzero_n == 0 && p_inits >= 1", "decreases": "(dkLen >> 5) + 1 - i"},
+    {"function": "_crypt_PBKDF2_SHA256", "anchor": "for (j = 2; j <= c; j++) {", "assigns": "j, hctx, __CPROVER_object_whole(T), __CPROVER_object_whole(U)", 
+     "invariant": "2 <= j && j <= c + 1 && xv_bzero_n == 0 && p_inits >= 1", "decreases": "c + 1 - j"},
+]
+j = _w("P_pbkdf2", ["PBKDF2_SHA256", "SHA256_Pad_Almost"], ["C09", "C04", "C16"],
+       ["_HMAC_SHA256_Init:p_hinit_stub", "_HMAC_SHA256_Update:p_hupd_stub", "_HMAC_SHA256_Final:p_hfin_stub",
+        "_SHA256_Update:p_upd_stub", "SHA256_Transform:p_transform_stub", "cpu_to_be32_vect:p_vect_stub"])
+j["loops"] = PB_LOOPS
+j["dfcc"] = {"apply_loop_contracts": True}   # nested loop contracts: the non-DFCC pass crashes on them
+j["pre_unwind"] = [{"function": "_crypt_PBKDF2_SHA256", "anchor": "for (k = 0; k < 32; k++)", "n": 32}]
+JOBS.append(j)
